@@ -626,6 +626,34 @@ func genLogq(r *rand.Rand, mode string) logqIn {
 	if mode == "select" && r.Intn(8) == 0 {
 		genIPCase(r, &in)
 	} else if mode == "select" && r.Intn(10) == 0 {
+		// the same value several records in a row (a filter must judge each record on its own), unparsable ones included
+		kind := []string{"num", "dur", "bytes"}[r.Intn(3)]
+		pool := map[string][]string{"num": {"5", "x5", "10", "1e3", "abc", ""}, "dur": {"1s", "1x", "90s", "abc", "2m"}, "bytes": {"1KB", "12xb", "5B", "abc", "2KiB"}}[kind]
+		v := pick(r, pool)
+		for i := range in.Recs {
+			if r.Intn(3) == 0 {
+				v = pick(r, pool)
+			}
+			in.Recs[i].Line, in.Recs[i].Doc = B("n="+v), [][2][]int{{B("n"), B(v)}}
+			if v == "" {
+				in.Recs[i].Line = B("n=\"\"")
+			}
+		}
+		var p *predIn
+		switch kind {
+		case "num":
+			lit := pick(r, []string{"5", "10", "100"})
+			p = &predIn{T: "num", Label: B("n"), Lit: B(lit), Val: ratOfDecimal(lit)}
+		case "dur":
+			lit := pick(r, []string{"1s", "90s", "1m"})
+			p = &predIn{T: "dur", Label: B("n"), Lit: B(lit), Val: ratOfDur(lit)}
+		default:
+			lit := pick(r, []string{"1KB", "5B", "1KiB"})
+			p = &predIn{T: "bytes", Label: B("n"), Lit: B(lit), Val: ratOfBytes(lit)}
+		}
+		p.Op = []string{"eq", "neq", "gt", "gte", "lt", "lte"}[r.Intn(6)]
+		in.Stages = []stageIn{{T: "logfmt"}, {T: "label", Pred: p}}
+	} else if mode == "select" && r.Intn(10) == 0 {
 		// zero-padded numbers in label values against thresholds that tell decimal from octal reading
 		for i := range in.Recs {
 			v := pick(r, []string{"010", "0100", "00120", "08", "10", "017", "0", "00"})
@@ -670,6 +698,13 @@ func genLogq(r *rand.Rand, mode string) logqIn {
 			in.Stages = append(in.Stages, stageIn{T: "drop", Labels: IntsList{B("y"), B("msg")}})
 		case 3:
 			in.Stages = append(in.Stages, stageIn{T: "logfmt"}, stageIn{T: "drop", Labels: IntsList{B("msg")}})
+		case 4:
+			if r.Intn(2) == 0 {
+				// a template that rewrites a label from its own value: every record starts from ITS attributes, not from what
+				// the stage made of the previous record's
+				in.Stages = append(in.Stages, stageIn{T: "labelfmt", Tmpls: []tmplIn{{Dst: B("x"), Parts: []partIn{{T: "label", Name: B("x")}, {T: "lit", S: B("!")}}}}},
+					stageIn{T: "drop", Labels: IntsList{B("msg")}})
+			}
 		}
 		if r.Intn(3) == 0 {
 			// a filter that rejects some records in between: what a rejected record carried (its labels, its count
